@@ -4,6 +4,7 @@
 //   - seeded random sets with table-driven hashes and with the real FNV-32 hashes the BPF proxy uses;
 //   - VERIF_MAGLEV_SIZES: every size config.BPFLUTSizeMaglev() can return (BPFMaglevMaxEndpointsPerService
 //     in its whole configurable range 1..3000), tables for a sample (or all) of them.
+//
 // Large tables are recorded as histogram + digest (pure summaries); nothing is judged here.
 package main
 
